@@ -222,6 +222,7 @@ type drvEvent struct {
 	local  string
 	remote string // the client's address as the server saw it
 	arg    string // id (auth, udpadd), status, found
+	extra  string // drain result of a probe
 }
 
 func parseEvents(s string) []drvEvent {
@@ -248,10 +249,18 @@ func parseEvents(s string) []drvEvent {
 				ev.local, ev.remote = p[0], p[1]
 				ev.arg, _ = strconv.Unquote(p[2])
 			}
-		case "tcpclosed", "tcpprobe":
+		case "tcpclosed":
 			p := strings.Fields(rest)
 			if len(p) == 3 {
 				ev.local, ev.remote, ev.arg = p[0], p[1], p[2]
+			}
+		case "tcpprobe":
+			p := strings.SplitN(rest, " ", 4)
+			if len(p) >= 3 {
+				ev.local, ev.remote, ev.arg = p[0], p[1], p[2]
+			}
+			if len(p) == 4 {
+				ev.extra, _ = strconv.Unquote(p[3])
 			}
 		case "udpadd":
 			p := strings.SplitN(rest, " ", 2)
